@@ -7,14 +7,16 @@ namespace BV.C04
 variable {A : UtxoAlg}
 
 /-- Every prefix of the log, replayed on the base image, is a legal crash image. -/
-def Sound (base : Image A) (log : List (Commit A)) : Prop := ∀ k, Inv' (replay base (log.take k))
+def Sound (base : Image A) (log : List (Commit A)) : Prop :=
+  ∀ k, Inv' (replay base (log.take k)) ∧ (JI base → JI (replay base (log.take k)))
 
 theorem replay_snoc (base : Image A) (log : List (Commit A)) (c : Commit A) :
     replay base (log ++ [c]) = apply (replay base log) c := by
   simp [replay, List.foldl_append]
 
 theorem sound_snoc {base : Image A} {log : List (Commit A)} {c : Commit A}
-    (h : Sound base log) (hs : Safe' (replay base log) c) : Sound base (log ++ [c]) := by
+    (h : Sound base log) (hs : Safe' (replay base log) c) (hnp : isPrune c = false) :
+    Sound base (log ++ [c]) := by
   intro k
   by_cases hk : k ≤ log.length
   · rw [List.take_append_of_le_length hk]; exact h k
@@ -22,7 +24,7 @@ theorem sound_snoc {base : Image A} {log : List (Commit A)} {c : Commit A}
     rw [h1, replay_snoc]
     have h2 := h log.length
     rw [List.take_length] at h2
-    exact safe_preserves' h2 hs
+    exact ⟨safe_preserves' h2.1 hs, fun hb => ji_preserves (h2.2 hb) hs hnp⟩
 
 theorem safe'_of {img : Image A} {c : Commit A} (hc : img.created = true) (hs : Safe img c) : Safe' img c := by
   cases c with
@@ -37,11 +39,6 @@ theorem safe'_of {img : Image A} {c : Commit A} (hc : img.created = true) (hs : 
   | utxoFlush u m => exact ⟨hc, hs⟩
 
 /-! ### monotone parts of an image -/
-
-/-- Commits that delete block files. -/
-def isPrune : Commit A → Bool
-  | .connectPrune _ _ _ => true
-  | _ => false
 
 theorem apply_created {img : Image A} (c : Commit A) (h : img.created = true) : (apply img c).created = true := by
   cases c with
@@ -93,7 +90,7 @@ structure Core (base : Image A) (nd : Node A) : Prop where
   dirty_idx : ∀ n, n ∈ nd.dirty → n ∈ keys nd.index
 
 theorem Core.inv {base : Image A} {nd : Node A} (h : Core base nd) : Inv nd.img := by
-  have h1 := h.sound nd.log.length
+  have h1 := (h.sound nd.log.length).1
   rw [List.take_length, ← h.img_eq] at h1
   exact inv_of_inv' h1 h.created
 
@@ -119,7 +116,7 @@ theorem core_step {base : Image A} {nd nd' : Node A} {c : Commit A} (h : Core ba
   · exact { img_eq := by rw [himg, hlog, replay_snoc, h.img_eq]
             sound := by
               rw [hlog]
-              exact sound_snoc h.sound (by rw [← h.img_eq]; exact safe'_of h.created hs)
+              exact sound_snoc h.sound (by rw [← h.img_eq]; exact safe'_of h.created hs) hnp
             created := by rw [himg]; exact apply_created c h.created
             tip_eq := htip
             idx_closed := by rw [hidx]; exact h.idx_closed
@@ -157,7 +154,7 @@ theorem core_flushDirty {base : Image A} {nd : Node A} (h : Core base nd) :
     · exact { img_eq := by simp only [emit]; rw [replay_snoc, h.img_eq]
               sound := by
                 simp only [emit]
-                exact sound_snoc h.sound (by rw [← h.img_eq]; exact safe'_of h.created hs)
+                exact sound_snoc h.sound (by rw [← h.img_eq]; exact safe'_of h.created hs) rfl
               created := by simp only [emit]; exact apply_created _ h.created
               tip_eq := h.tip_eq
               idx_closed := h.idx_closed
